@@ -127,6 +127,43 @@ type world struct {
 	fail      *pbt.Failure
 	proposals int
 	seenAck   map[string]bool // payloads whose proposer saw them applied locally
+
+	// history of the case as it ran (writes, applies, messages and what the links did with them, steps): attached to a
+	// failure, because a failure that depends on the schedule does not fail again when its tape is replayed
+	hmu     sync.Mutex
+	history []string
+	t0      time.Time
+}
+
+const historyCap = 8000
+
+func (w *world) tracef(format string, a ...interface{}) {
+	w.hmu.Lock()
+	if len(w.history) < historyCap {
+		w.history = append(w.history, fmt.Sprintf("%8.3fms ", float64(time.Since(w.t0).Microseconds())/1000)+fmt.Sprintf(format, a...))
+	}
+	w.hmu.Unlock()
+}
+
+func (w *world) dumpHistory() string {
+	w.hmu.Lock()
+	defer w.hmu.Unlock()
+	return strings.Join(w.history, "\n")
+}
+
+// isUp: r.up, r.group, r.mon and r.inc are written by start (main goroutine) and by kill (the goroutine a crash plan
+// starts) under w.mu; the main goroutine reads them through these helpers, so that it sees a replica as down only after
+// kill has finished with it (a restart that overlapped kill could have had its new group killed instead of the old one).
+func (w *world) isUp(r *replica) bool {
+	w.mu.Lock()
+	defer w.mu.Unlock()
+	return r.up
+}
+
+func (w *world) canonLen() int {
+	w.mu.Lock()
+	defer w.mu.Unlock()
+	return len(w.canon)
 }
 
 func (w *world) setFail(f *pbt.Failure) {
@@ -148,10 +185,12 @@ var groupID = gen.ID(777)
 // applyFn is the state machine: append-only list, checked against the canonical sequence.
 func (w *world) applyFn(r *replica, inc int) raft.ProcessFn {
 	return func(data []byte) error {
+		sim.Jitter()
 		r.mu.Lock()
 		pos := len(r.applied)
 		r.applied = append(r.applied, string(data))
 		r.mu.Unlock()
+		w.tracef("r%d/inc%d apply %q at position %d", r.i, inc, data, pos)
 		w.mu.Lock()
 		defer w.mu.Unlock()
 		if pos < len(w.canon) {
@@ -191,8 +230,11 @@ func (w *world) start(r *replica, bootstrap bool) {
 		d := r.mon.DurableView()
 		prev = &d
 	}
-	r.mon = sim.NewMonWAL(wal.NewBadgerWAL(r.db, groupID))
-	before := r.mon.DurableView()
+	mon := sim.NewMonWAL(wal.NewBadgerWAL(r.db, groupID))
+	w.mu.Lock()
+	r.mon = mon
+	w.mu.Unlock()
+	before := mon.DurableView()
 	if prev != nil && !bootstrap {
 		// what a fresh instance reads back from the store must be exactly what the previous incarnation made durable
 		if before.Term != prev.Term || before.Vote != prev.Vote || before.Commit != prev.Commit || before.LastIndex != prev.LastIndex || before.SnapIndex != prev.SnapIndex {
@@ -204,10 +246,13 @@ func (w *world) start(r *replica, bootstrap bool) {
 			}
 		}
 	}
+	w.mu.Lock()
 	r.inc++
 	inc := r.inc
+	w.mu.Unlock()
 	rr := r
-	r.mon.OnCrash = func() { w.kill(rr, inc) }
+	r.mon.OnCrash = func() { w.tracef("r%d/inc%d crash fires", rr.i, inc); w.kill(rr, inc) }
+	r.mon.Trace = func(s string) { w.tracef("r%d/inc%d %s", rr.i, inc, s) }
 	var nodeIds []uint64
 	pristine := before.LastIndex == 0 && before.Term == 0 && before.Commit == 0 && before.Vote == 0
 	if !bootstrap && pristine && !r.joiner {
@@ -230,6 +275,7 @@ func (w *world) start(r *replica, bootstrap bool) {
 		// to startRaftNode to tell a pristine store from one that holds state
 		nodeIds = peers
 	}
+	w.tracef("r%d/inc%d start nodeIds=%v store: term=%d vote=%d commit=%d snapshot=%d last=%d", r.i, inc, nodeIds, before.Term, before.Vote, before.Commit, before.SnapIndex, before.LastIndex)
 	g, err := raft.NewRaftGroup(groupID, nodeIds, r.mon, r.tr)
 	if err != nil {
 		panic(err)
@@ -239,6 +285,7 @@ func (w *world) start(r *replica, bootstrap bool) {
 	r.mu.Unlock()
 	g.RegisterProcessFn(w.applyFn(r, inc))
 	g.RegisterSnapshotFn(func() ([]byte, error) {
+		sim.Jitter()
 		r.mu.Lock()
 		defer r.mu.Unlock()
 		return []byte(strings.Join(r.applied, "\x00")), nil
@@ -248,9 +295,11 @@ func (w *world) start(r *replica, bootstrap bool) {
 		if len(data) > 0 {
 			list = strings.Split(string(data), "\x00")
 		}
+		sim.Jitter()
 		r.mu.Lock()
 		r.applied = list
 		r.mu.Unlock()
+		w.tracef("r%d/inc%d restore snapshot %q", r.i, inc, list)
 		w.mu.Lock()
 		defer w.mu.Unlock()
 		for i, p := range list {
@@ -267,8 +316,10 @@ func (w *world) start(r *replica, bootstrap bool) {
 		w.setFail(pbt.Failf("C05:start-error", "replica %d: Start returned %v", r.i, err))
 		return
 	}
+	w.mu.Lock()
 	r.group = g
 	r.up = true
+	w.mu.Unlock()
 	w.net.SetTarget(r.id, r.tr)
 	if !bootstrap && !(r.joiner && r.inc == 1) {
 		// (d) after restart: the node resumes from a term and log no older than what it had made durable
@@ -295,6 +346,7 @@ func (w *world) kill(r *replica, inc int) {
 	r.up = false
 	w.net.SetTarget(r.id, nil)
 	r.group.VerifKill()
+	w.tracef("r%d/inc%d killed", r.i, inc)
 }
 
 func (w *world) collectWalViolations() {
@@ -350,10 +402,18 @@ func firstLines(s string, n int) string {
 
 var trapOnce sync.Once
 
-func check(c Case, o *pbt.Obs) *pbt.Failure {
+func check(c Case, o *pbt.Obs) (failure *pbt.Failure) {
 	trapOnce.Do(sim.InstallFatalTrap)
 	sim.TakeUnexpectedFatal()
-	w := &world{c: c, net: sim.NewNet(), o: o, seenAck: map[string]bool{}}
+	w := &world{c: c, net: sim.NewNet(), o: o, seenAck: map[string]bool{}, t0: time.Now()}
+	defer func() {
+		if failure != nil {
+			failure.History = w.dumpHistory()
+		}
+	}()
+	w.net.OnDecision = func(from, to uint64, m raftpb.Message, dec int) {
+		w.tracef("msg %s link=%s", sim.DescribeMsg(m), []string{"deliver", "drop-error", "drop-silent", "duplicate", "delay"}[dec])
+	}
 	for i := 0; i < c.Replicas; i++ {
 		w.reps = append(w.reps, &replica{i: i, id: nodeID(i), db: hutil.MemDB()})
 	}
@@ -362,7 +422,7 @@ func check(c Case, o *pbt.Obs) *pbt.Failure {
 	}
 	defer func() {
 		for _, r := range w.reps {
-			if r.up {
+			if w.isUp(r) {
 				r.group.Stop()
 			}
 		}
@@ -406,9 +466,10 @@ func check(c Case, o *pbt.Obs) *pbt.Failure {
 			return f
 		}
 		r := w.reps[s.A%len(w.reps)]
+		w.tracef("step %d: %s(a=%d,b=%d,n=%d,after=%v,tape=%v)", si, stepNames[s.K], s.A, s.B, s.N, s.After, s.Tape)
 		switch s.K {
 		case SPropose:
-			if !r.up {
+			if !w.isUp(r) {
 				continue
 			}
 			w.proposals++
@@ -418,7 +479,7 @@ func check(c Case, o *pbt.Obs) *pbt.Failure {
 			cancel()
 		case STick:
 			for _, rr := range w.reps {
-				if rr.up {
+				if w.isUp(rr) {
 					n := s.N
 					if rr != r {
 						n = (s.N + 1) / 2
@@ -438,13 +499,13 @@ func check(c Case, o *pbt.Obs) *pbt.Failure {
 		case SHeal:
 			w.net.HealAll()
 		case SCrash:
-			if !r.up {
+			if !w.isUp(r) {
 				continue
 			}
 			r.mon.Arm(s.N, s.After)
 			crashes++
 		case SRestart:
-			if r.up || (r.joiner && !r.joined) {
+			if w.isUp(r) || (r.joiner && !r.joined) {
 				continue
 			}
 			w.start(r, false)
@@ -459,7 +520,7 @@ func check(c Case, o *pbt.Obs) *pbt.Failure {
 			// the leader of the moment proposes the new member (partition.proposeAddNode); the joiner loads its group
 			// without peers when the catalogue change reaches it, whether or not the membership change got through
 			for _, l := range w.reps {
-				if l.up && l.group.VerifStatus().RaftState == etcdRaft.StateLeader {
+				if w.isUp(l) && l.group.VerifStatus().RaftState == etcdRaft.StateLeader {
 					_ = l.group.ProposeJoin(j.id, fmt.Sprintf("sim:%d", j.id))
 					break
 				}
@@ -468,7 +529,7 @@ func check(c Case, o *pbt.Obs) *pbt.Failure {
 			w.start(j, false)
 			o.Label("join-step")
 		case SSnapshot:
-			if r.up {
+			if w.isUp(r) {
 				if err, ran := r.group.VerifSnapshotNow(); ran && err != nil && err != sim.ErrCrashed && err != etcdRaft.ErrSnapOutOfDate && err != wal.EmptyConfStateErr {
 					w.setFail(pbt.Failf("C05:snapshot-error", "replica %d step %d: trySnapshot returned %v", r.i, si, err))
 				}
@@ -485,7 +546,7 @@ func check(c Case, o *pbt.Obs) *pbt.Failure {
 		}
 		settle()
 		w.collectWalViolations()
-		if (faults > 0 || crashes > 0) && len(w.canon) > 0 {
+		if (faults > 0 || crashes > 0) && w.canonLen() > 0 {
 			committedAfterFault = true
 		}
 	}
@@ -493,6 +554,7 @@ func check(c Case, o *pbt.Obs) *pbt.Failure {
 		return f
 	}
 	// (e) convergence once faults stop
+	w.tracef("convergence phase")
 	w.net.HealAll()
 	for _, r := range w.reps {
 		if r.mon != nil {
@@ -501,7 +563,7 @@ func check(c Case, o *pbt.Obs) *pbt.Failure {
 	}
 	time.Sleep(300 * time.Microsecond)
 	for _, r := range w.reps {
-		if !r.up && (!r.joiner || r.joined) {
+		if !w.isUp(r) && (!r.joiner || r.joined) {
 			w.start(r, false)
 		}
 	}
@@ -517,10 +579,10 @@ func check(c Case, o *pbt.Obs) *pbt.Failure {
 			if r.joiner && !r.joined {
 				continue
 			}
-			if !r.up {
+			if !w.isUp(r) {
 				w.start(r, false) // a crash that fired late
 			}
-			if r.up {
+			if w.isUp(r) {
 				r.group.VerifTick(1)
 			}
 		}
@@ -529,7 +591,7 @@ func check(c Case, o *pbt.Obs) *pbt.Failure {
 		// a leader?
 		var leader *replica
 		for _, r := range w.reps {
-			if r.up && r.group.VerifStatus().RaftState == etcdRaft.StateLeader {
+			if w.isUp(r) && r.group.VerifStatus().RaftState == etcdRaft.StateLeader {
 				leader = r
 			}
 		}
@@ -590,7 +652,7 @@ func check(c Case, o *pbt.Obs) *pbt.Failure {
 			}
 			s := r.group.VerifStatus()
 			r.mu.Lock()
-			st = append(st, fmt.Sprintf("r%d{up=%v term=%d state=%v commit=%d applied=%d}", r.i, r.up, s.Term, s.RaftState, s.Commit, len(r.applied)))
+			st = append(st, fmt.Sprintf("r%d{up=%v term=%d state=%v commit=%d applied=%d}", r.i, w.isUp(r), s.Term, s.RaftState, s.Commit, len(r.applied)))
 			r.mu.Unlock()
 		}
 		if os.Getenv("VERIF_DEBUG_DUMP") != "" {
